@@ -2,6 +2,9 @@
 
 Proof obligations: Pixman.Props.C08 (model = lean/Pixman/Model/Fetch.lean, the reference fetchers of
 pixman-bits-image.c; spec = lean/Pixman/Spec/Sampling.lean + Spec/Repeat.lean).
+Specialised paths: Pixman.Props.C08Fast (model = lean/Pixman/Model/FetchFast.lean: affine iterators, FAST_NEAREST main
+loops, rotate 90/270, bilinear cover iterator) — each proved equal to the reference fetcher on its guard; `pixdrv samplefast`
+evaluates every request through those models where a guard holds and is compared with the library under all configurations.
 Correspondence: harness/sample.c against `pixdrv sample`: OP_SRC composites from a transformed
 a8r8g8b8 / x8r8g8b8 / a8 source (1..9 x 1..9) into an a8r8g8b8 destination, every filter x repeat x
 affine and projective transforms x destination offsets; each stream is executed once per
@@ -13,6 +16,22 @@ tolerance for projective NEAREST."""
 import collections, json, os, re, shutil, subprocess
 from concurrent.futures import ThreadPoolExecutor
 from engine.core import log, sh, VERIF
+
+REQUIRED_FAST = [
+    "Pixman.Props.C08Fast.nearest_affine_iter_eq",
+    "Pixman.Props.C08Fast.bilinear_affine_iter_eq",
+    "Pixman.Props.C08Fast.separable_affine_iter_eq",
+    "Pixman.Props.C08Fast.fast_nearest_cover_eq",
+    "Pixman.Props.C08Fast.fast_nearest_none_pad_eq",
+    "Pixman.Props.C08Fast.fast_nearest_normal_eq",
+    "Pixman.Props.C08Fast.scale_reference_rows",
+    "Pixman.Props.C08Fast.fast_rotate90_eq",
+    "Pixman.Props.C08Fast.fast_rotate270_eq",
+    "Pixman.Props.C08Fast.rotate90_reference_row",
+    "Pixman.Props.C08Fast.rotate270_reference_row",
+    "Pixman.Props.C08Fast.fast_bilinear_cover_eq_partial",
+    "Pixman.Props.C08Fast.bilinear_scanline_coords_partial",
+]
 
 REQUIRED = [
     "Pixman.Props.C08.repeat_spec",
@@ -37,8 +56,7 @@ REQUIRED = [
     "Pixman.Props.C08.division_spec",
     "Pixman.Props.C08.general_affine_agree",
     "Pixman.Props.C08.projective_position_bound_partial",
-    "Pixman.Props.C08.scaled_nearest_index_partial",
-    "Pixman.Props.C08.scaled_nearest_normal_partial",
+    "Pixman.Props.C08.projective_position_units_partial",
 ]
 
 CONFIGS = [("default", ""), ("no-ssse3", "ssse3"), ("no-ssse3-sse2", "ssse3 sse2"), ("no-simd", "ssse3 sse2 mmx"),
@@ -270,7 +288,7 @@ def report(ctx, findings, limit=10):
 
 
 def run(ctx):
-    broken = ctx.lean_obligations("Pixman.Props.C08", REQUIRED)
+    broken = ctx.lean_obligations("Pixman.Props.C08", REQUIRED + REQUIRED_FAST, extra_modules=["Pixman.Props.C08Fast"])
     quick = ctx.tier == "quick"
     findings = run_streams(ctx, 8000 if quick else 40000, 16 if quick else 48)
     report(ctx, findings)
